@@ -71,10 +71,9 @@ def plan(tier, seed):
 
 def make_case(seed, shard, i):
     r = random.Random(f"{seed}:C15:{shard}:{i}")
-    g = lang.Gen(r, FEATURES)
-    prog = lang.tolist(g.program())
+    prog, rows = lang.gen_case(r, FEATURES)
+    prog = lang.tolist(prog)
     prog["mode"] = "AND"
-    rows = lang.data_rows(r)
     cm = gen_comment(r)
     placement = r.choice(["before", "before", "after", "both"])
     return {"prog": prog, "rows": rows, "comment": cm, "placement": placement}
